@@ -58,7 +58,7 @@ func (o Op) String() string {
 			x += ",sameObject"
 		}
 		if o.Shape != 0 {
-			x += [...]string{"", ",unwrapper", ",closer+unwrapper", ",uncomparable-value", ",12-decorators", ",uncomparable-value-unwrapper"}[o.Shape]
+			x += [...]string{"", ",unwrapper", ",closer+unwrapper", ",uncomparable-value", ",12-100-decorators", ",uncomparable-value-unwrapper"}[o.Shape]
 		}
 		x += dressName(o.Dress)
 		return fmt.Sprintf("RegNode(%q,%s%s%s)", o.N, TypeName(o.NT), pol, x)
@@ -270,7 +270,8 @@ func (x *Exec) Apply(op Op) Result {
 		case 3:
 			obj = nodes.Uncomparable{Inner: n, Pad: []int{1}}
 		case 4:
-			obj = nodes.WrapDeep(n, 12) // a dozen decorators around the closable node
+			// 12 to 100 decorators around the closable node (nothing bounds the length of an Unwrap chain)
+			obj = nodes.WrapDeep(n, [...]int{12, 31, 32, 33, 100}[x.ninst%5])
 		case 5:
 			obj = nodes.UncomparableWrap{Inner: n, Pad: []int{1}} // held by value, not hashable, Unwrap only
 		}
